@@ -368,7 +368,7 @@ def gen_c17(rng, index: Optional[int] = None, maxlen: int = 4, long: bool = Fals
         p = rng.choice(ports)
         st = {"kind": "dgram", "port": p, "payload": valid_dgram(rng, rng.randrange(1, 1 << 24)).hex(), "tag": tagc[0]}
         if late:
-            st["delay"] = round(rng.choice([0.0, 0.000001, 0.001, 0.5]), 6)
+            st["delay"] = round(rng.choice([0.0, 0.0, 0.0, 0.000001, 0.001, 0.5]), 6)
         steps.append(st)
         if not late:
             steps.append({"kind": "sleep", "s": rng.choice([0.01, 0.01, 1.5])})
@@ -382,7 +382,7 @@ def gen_c17(rng, index: Optional[int] = None, maxlen: int = 4, long: bool = Fals
             elif a == "stop":
                 if rng.random() < 0.5:
                     send(ports, late=True)          # a datagram in flight / queued / just read when stop is called
-                    for _ in range(rng.choice([0, 0, 1, 2, 3, 4])):
+                    for _ in range(rng.choice([0, 1, 2, 2, 3, 4])):
                         steps.append({"kind": "sleep", "s": 0.0})
                 steps.append({"kind": rng.choice(["stop", "stop", "aexit"]), "exc": rng.random() < 0.3})
             elif a == "send":
@@ -406,7 +406,7 @@ def gen_c17(rng, index: Optional[int] = None, maxlen: int = 4, long: bool = Fals
         elif r < 0.5:
             if rng.random() < 0.5:
                 send(ports, late=True)
-                for _ in range(rng.choice([0, 0, 1, 2, 3, 4])):
+                for _ in range(rng.choice([0, 1, 2, 2, 3, 4])):
                     steps.append({"kind": "sleep", "s": 0.0})
             steps.append({"kind": rng.choice(["stop", "aexit"]), "exc": rng.random() < 0.3})
             running = False
